@@ -69,6 +69,8 @@ package dochandler
 //@   sets validations = validations + 1
 //@ func (*DocumentHandler).getCreateResponse
 //@   requires dhOK(r) && op != nil && pv != nil
+//   a create response is always presented as unpublished
+//@   atcall TransformDocument "published" in info && info["published"] == boxed(false) && !("canonicalId" in info)
 //@   closure 1
 //@     requires r != nil && r.metrics != nil
 //@   end
@@ -82,6 +84,8 @@ package dochandler
 //   store and before it is queued
 //@   atcall addOperationToUnpublishedOpsStore validations == old(validations) + 1
 //@   atcall addToBatch validations == old(validations) + 1
+//   the unpublished-store put comes before the queueing: when it fails the client is refused and nothing is queued
+//@   atcall addOperationToUnpublishedOpsStore added == old(added)
 //@   results res, err
 //@   ensures added <= old(added) + 1
 //@   ensures err == nil ==> added == old(added) + 1
@@ -118,6 +122,12 @@ package dochandler
 //@   atcall GetTransformationInfoForPublished len(internalResult.PublishedOperations) > 0
 //@   atcall GetTransformationInfoForUnpublished len(internalResult.PublishedOperations) == 0
 //@   atcall TransformDocument rm == internalResult
+//   what the transformer is told: exactly the published / unpublished info built above (nothing added, removed or
+//   overwritten afterwards, whatever else the resolution result says: deactivated, pending operations, ...)
+//@   atcall TransformDocument len(internalResult.PublishedOperations) > 0 ==> "published" in info && info["published"] == boxed(true) && "id" in info && info["id"] == boxed(shortFormDid) && "canonicalId" in info && info["canonicalId"] == boxed(r.namespace + cond(internalResult.CanonicalReference != "", ":" + internalResult.CanonicalReference, "") + ":" + uniquePortion) && "equivalentId" in info && isType(info["equivalentId"], "[]string") && len(unbox(info["equivalentId"], "[]string")) == 1 + len(internalResult.EquivalentReferences)
+//@   atcall TransformDocument len(internalResult.PublishedOperations) == 0 ==> "published" in info && info["published"] == boxed(false) && !("canonicalId" in info)
 //@   modifies lastResolved
 //@ func (*DocumentHandler).resolveRequestWithInitialState
 //@   requires dhOK(r) && pv != nil
+//   a DID resolved from its initial state is always presented as unpublished
+//@   atcall TransformDocument "published" in info && info["published"] == boxed(false) && !("canonicalId" in info)
